@@ -44,6 +44,8 @@ def make_scripted(rec, script):
                 if not rs:                       # a side withdrawn by declaring []
                     setattr(self, name, [])
                     return
+                if [(abs(q), p) for q, p in D.rows_of(cur)] == [(abs(float(q)), float(p)) for q, p in rs]:
+                    return      # same rows as declared already (the model ignores signs and styles): not an edit, leave it untouched
                 k = sum(int(q) + int(p) for q, p in rs)
                 if self.position.qty < 0 and k % 2 == 1:      # on a short: rows written with the signed quantity (position.qty)
                     rs = [(-abs(q), p) for q, p in rs]
